@@ -7,7 +7,7 @@ i = 0
 while i < len(src):
     ln = src[i]
     st = ln.strip()
-    if re.match(r"(invariant|requires|ensures|decreases)\b", st):
+    if re.match(r"(invariant_except_break|invariant|requires|ensures|decreases)\b", st):
         blk = []
         while i < len(src) and src[i].strip() not in ("{",):
             blk.append(src[i]); i += 1
